@@ -72,6 +72,8 @@ static void verif_replay_bytes(const char* name, vu8* dst, size_t n)
 #define IN(T, name)    T name = (T)verif_replay_get(#name)
 #define IN_BYTES(name, N) vu8 name[N]; verif_replay_bytes(#name, name, N)
 #define FRESH(T, name, nbytes) T* name = (T*)calloc((nbytes) ? (nbytes) : 1, 1)
+/* heap objects the harness leaves unconstrained are zero-filled in the replay (any content is allowed) */
+#define malloc(n) calloc(((n) ? (n) : 1), 1)
 #define __CPROVER_assume(c) ASSUME(c)
 #define __CPROVER_assert(c, m) CLAIM(c, m)
 
